@@ -96,6 +96,10 @@ def check_copy_aggregate(report, rule, b, res, conds, param, adt_fields_of):
                  b.qname, adt.split("::")[-1], vname, fn, sorted(map(str, acc)) or "nothing"), "%s.%s" % (vname, fn))
 
 
+REORDER = re.compile(r"(?:<impl \[T\]>|Vec::<T, A>|VecDeque::<T, A>)::(sort\w*|reverse|rotate_\w+|swap|dedup\w*|retain\w*|truncate|"
+                     r"swap_remove|remove|pop|clear|drain|split_off)$")
+
+
 def run(ctx):
     prog = ctx.prog
     report = Report("C16", ctx, "R1 every into_owned (and the record-building closures inside) builds each field / variant payload of "
@@ -161,6 +165,14 @@ def run(ctx):
                     pt = cb.local_ty(2)["s"] if cb.argc >= 2 else ""
                     if res[1].split("::")[-1] in pt:
                         check_copy_aggregate(report, "C16-R1", cb, res, conds, 2, None)
+        # an owned copy keeps the order and the number of the elements it copies: nothing in into_owned (or its closures) may
+        # sort, reverse, de-duplicate, truncate or remove from a collection
+        for x in [b] + mu.closures_of(prog, b):
+            for bi, t in mu.calls(x, r"."):
+                m = REORDER.search(t["callee"]["def"]) if t.get("callee") else None
+                if m and not x.blocks[bi]["cleanup"]:
+                    viol(report, "C16-R1", b, "reordered", "%s calls `%s` on a collection it copies: the owned value no longer has the elements of "
+                         "the original in the original order, so it does not compare equal to it" % (b.qname, m.group(1)), m.group(1))
     report.extra["into_owned_result_aggregates"] = n_arms
     report.sample({"fn": "simple_dns::ResourceRecord::into_owned", "rule": "each of name/class/ttl/rdata/cache_flush originates in self.<same field>"})
     # ---- R2 / R3 / R4
